@@ -73,6 +73,8 @@ func vTime(t time.Time) val {
 	z := "utc"
 	if t.Location() == time.Local {
 		z = "local"
+	} else if _, off := t.Zone(); off == 3*3600 {
+		z = "east3"
 	}
 	return val{K: "datetime", I: t.Unix(), N: int64(t.Nanosecond()), Z: z}
 }
@@ -85,6 +87,8 @@ func b2i(b bool) int64 {
 }
 
 type objPayload struct{ Name string }
+
+var east3 = time.FixedZone("east3", 3*3600)
 
 // toVariant builds a fresh library variant from the description.
 func (v val) toVariant() *variants.Variant {
@@ -125,6 +129,8 @@ func (v val) toTime() time.Time {
 		return time.Time{}
 	case "local":
 		return time.Unix(v.I, v.N)
+	case "east3":
+		return time.Unix(v.I, v.N).In(east3)
 	}
 	return time.Unix(v.I, v.N).UTC()
 }
